@@ -186,10 +186,14 @@ Record wf_app (a : app) : Prop := {
      (g < length a)%nat /\ p_sel (port_at a g) = None /\ p_nodef (port_at a g) = false /\
      p_array (port_at a g) = false /\ incl (p_hard (port_at a g)) (p_hard (port_at a q)) /\
      incl (p_soft (port_at a g)) (p_soft (port_at a q)) /\ ~ In g (p_hard (port_at a g));
-  (* every default holds as many values as the port has elements *)
+  (* every default holds as many values as the port has elements; a port without a
+     default (p_nodef: no rDefault - it is never saved, p_default is empty) is initialised
+     with that many values *)
   w_shape : forall i, (i < length a)%nat ->
      (0 < p_len (port_at a i))%nat /\ (p_array (port_at a i) = false -> p_len (port_at a i) = 1%nat) /\
-     forall selv, length (default_with (port_at a i) selv) = p_len (port_at a i)
+     (p_nodef (port_at a i) = false -> forall selv, length (default_with (port_at a i) selv) = p_len (port_at a i)) /\
+     (p_nodef (port_at a i) = true ->
+        length (p_init (port_at a i)) = p_len (port_at a i) /\ p_sel (port_at a i) = None)
 }.
 
 (* x has to be applied after y: y selects x's default, or allocates the object x lives in *)
@@ -342,7 +346,7 @@ Section Full.
   Proof.
     intros cur done i rest I Hsv Hnd Hhead Harr.
     destruct (saved_facts' i Hsv) as (Hi & Hnodef & Hlive & _).
-    destruct (w_shape a WF i Hi) as (_ & Hone & Hdl). specialize (Hone Harr).
+    destruct (w_shape a WF i Hi) as (_ & Hone & Hdl0 & _). specialize (Hone Harr). pose proof (Hdl0 Hnodef) as Hdl.
     assert (Hsti : exists v, val_at st i = [v]).
     { pose proof (state_shape i Hi) as H. rewrite Hone in H.
       destruct (val_at st i) as [|v [|]]; simpl in H; try lia. exists v. reflexivity. }
@@ -544,7 +548,7 @@ Section Full.
   Proof.
     intros cur done i rest I Hsv Hnd Hhead Harr.
     destruct (saved_facts' i Hsv) as (Hi & Hnodef & Hlive & _).
-    destruct (w_shape a WF i Hi) as (_ & _ & Hdl).
+    destruct (w_shape a WF i Hi) as (_ & _ & Hdl0 & _). pose proof (Hdl0 Hnodef) as Hdl.
     set (p := port_at a i) in *.
     assert (Hpre : forall y, must_precede a y i -> ~ In y (i :: rest)).
     { intros y Hy [Hc|Hc]; [subst y; exact (not_self i Hi Hy) | exact (Hhead y Hc Hy)]. }
@@ -727,7 +731,7 @@ Proof.
   { apply respects_map in Hresp. eapply respects_ext; [|exact Hresp].
     intros x y Hxy. exists x, y. unfold the_line. simpl. auto. }
   destruct (roundtrip_abstract_full a st ord Hfull (Permutation_sym Hpo) Hrb) as (fin & Hfin & Hcount & Hrest).
-  rewrite (real_apply_is_apply_all dispatch a H4), Hfin. exists fin. split; [reflexivity | assumption].
+  rewrite (real_apply_is_apply_all dispatch a H4 _ _ fin Hfin). exists fin. split; [reflexivity | assumption].
 Qed.
 
 (* ---- non-vacuity: a switch with a pointer sub-tree and a trimmed array ---------------- *)
@@ -735,20 +739,30 @@ Definition mkp (path : str) (k : skind) (arr : bool) (n : nat) (d : value) (hard
   {| p_path := path; p_kind := k; p_array := arr; p_len := n; p_min := None; p_max := None;
      p_opts := []; p_default := d; p_sel := None; p_table := []; p_hard := hard; p_soft := [];
      p_nodef := false; p_init := [] |}.
+(* a parameter without rDefault: p_default is empty, the object initialises it (p_init);
+   it is never saved and not restored *)
+Definition mkp_nodef (path : str) (k : skind) (init : value) : port :=
+  {| p_path := path; p_kind := k; p_array := false; p_len := 1; p_min := None; p_max := None;
+     p_opts := []; p_default := []; p_sel := None; p_table := []; p_hard := []; p_soft := [];
+     p_nodef := true; p_init := init |}.
 Definition fx_app : app :=
   [mkp [47; 101]%Z KT false 1 [VT false] [];                  (* /e   switch of the sub-tree *)
    mkp [47; 115; 47; 120]%Z KI false 1 [VI 3] [0%nat];        (* /s/x below it *)
-   mkp [47; 116]%Z KI true 3 [VI 1; VI 1; VI 1] []].          (* /t#3 *)
-Definition fx_state : state := [[VT true]; [VI 9]; [VI 1; VI 5; VI 1]].
+   mkp [47; 116]%Z KI true 3 [VI 1; VI 1; VI 1] [];           (* /t#3 *)
+   mkp_nodef [47; 110]%Z KI [VI 7]].                          (* /n   no default: holds 8, not saved *)
+Definition fx_state : state := [[VT true]; [VI 9]; [VI 1; VI 5; VI 1]; [VI 8]].
+(* what loading the saved file into a default-initialised instance gives: the parameters with a
+   default are restored, the one without keeps the value the object initialises it with *)
+Definition fx_loaded : state := [[VT true]; [VI 9]; [VI 1; VI 5; VI 1]; [VI 7]].
 
-Ltac three i := destruct i as [|[|[|i]]]; [| | |simpl in *; try lia].
+Ltac three i := destruct i as [|[|[|[|i]]]]; [| | | |simpl in *; try lia].
 
 Theorem roundtrip_full_nonvacuous :
   full_conditions fx_app fx_state /\ saved fx_app fx_state = [0%nat; 1%nat; 2%nat] /\
   respects (must_precede fx_app) [0%nat; 2%nat; 1%nat] /\
   (* the array line is trimmed to two elements *)
   l_vals (the_line fx_app fx_state 2) = [VI 1; VI 5] /\
-  apply_all fx_app (map (the_line fx_app fx_state) [0%nat; 2%nat; 1%nat]) (initial fx_app) = (fx_state, true) /\
+  apply_all fx_app (map (the_line fx_app fx_state) [0%nat; 2%nat; 1%nat]) (initial fx_app) = (fx_loaded, true) /\
   (* the line below the sub-tree in front of its switch: no port accepts it *)
   snd (apply_all fx_app (map (the_line fx_app fx_state) [1%nat; 0%nat; 2%nat]) (initial fx_app)) = false.
 Proof.
@@ -761,9 +775,10 @@ Proof.
       * intros q g Hq Hg. three q; simpl in Hg; try contradiction.
         destruct Hg as [Hg|[]]. subst g. simpl. repeat split; try lia; try reflexivity;
           try (intros x []); intros [].
-      * intros i Hi. three i; simpl; repeat split; try lia; try reflexivity; try discriminate;
-          intros selv; unfold default_with; simpl; destruct selv as [v|]; try reflexivity;
-          destruct (sel_key v); reflexivity.
+      * intros i Hi. three i; simpl; (split; [lia|]); (split; [try reflexivity; discriminate|]);
+          (split; [intros Hnd; try discriminate Hnd; intros selv; unfold default_with; simpl;
+                   destruct selv as [v|]; try reflexivity; destruct (sel_key v); reflexivity
+                  |intros Hnd; try discriminate Hnd; split; reflexivity]).
     + intros i Hi. three i; reflexivity.
     + intros i x Hi Hx. change (saved fx_app fx_state) with [0%nat; 1%nat; 2%nat] in Hi.
       destruct Hi as [Hi|[Hi|[Hi|[]]]]; subst i; simpl in Hx;
